@@ -38,7 +38,7 @@ CLAIMED = {
  "C16": ("§5 C16", "Grammar-generated expressions, every value/range/step/name per field, and all single-character edits of base expressions judged against a reference grammar; for accepted expressions the denoted sets are observed behaviourally by pinning the clock and asking next() one membership question per field value.",
          "Needs the clock hook. Shapes the documentation does not settle (leading zeros, a-b/n, steps above the field size, ? L W #) are skipped."),
  "C17": ("§5 C17", "Recorded histories of 4-40 next() calls under a pinned clock that advances arbitrarily between calls, checked event by event against an executable model (earliest matching minute after max(previous, now)); clone continuity.",
-         "Satisfiable schedules, non-decreasing clock, years 1-9999; needs the clock hook."),
+         "Satisfiable schedules, non-decreasing clock, years -9999..9999; needs the clock hook."),
  "C18": ("§5 C18", "The vendored IANA corpus (fat + slim) and synthetic v1/v2/v3 files looked up at every transition -1/0/+1 s, every rule switch +-1 s over 16 years and random timestamps, compared with an RFC 8536 / POSIX-TZ reference that is itself cross-checked against CPython zoneinfo on the same lookups; a sample goes end-to-end through Offset::Local.",
          "Needs the TZif and /etc/localtime hooks. Reference = model/tzif_ref.rs; CPython comparison skips footers using the zero-based n day form (CPython deviates from POSIX there)."),
  "C19": ("§5 C19", "Fault enumeration over TZif structure: every header count x boundary values, every truncation point, every type index, version bytes, hostile and grammar-mutated footers, random damage; each accepted file is looked up across the whole DateTime range incl. both ends, and a sample is installed as /etc/localtime for Offset::Local.resolve().",
@@ -46,6 +46,25 @@ CLAIMED = {
  "C20": ("§5 C20", "Dates over the whole range (5-7 digit and negative years), every second of the day x offsets for Time, DateTimes in years 1-9999 x whole-minute offsets: Display vs documented rendering, FromStr, serde_json round trips; mutated strings must yield errors, not panics.",
          "serde is exercised through serde_json only."),
 }
+# what rounds 5/6 added (DESIGN §10.8, §10.11)
+_SEQ = " Every 61st case runs as the first calls of a fresh thread; call sequences of related values (siblings, then the first again) are part of the workload."
+_MAG = " Instants, differences, counts and Durations are also placed at 2^k·unit magnitudes (2^15…2^64 of ns…weeks)."
+_LOC = " Values carrying Offset::Local (system zone and clock redirected by the hooks) are compared with their Offset::Fixed twins."
+EXTRA = {
+ "C01": _SEQ, "C02": _SEQ + " set_day_of_year is also judged in the two partly representable years with offsets.",
+ "C03": _MAG + _SEQ + _LOC + " Values whose local reading lies beyond a range end are compared as well.",
+ "C04": _MAG + _SEQ + _LOC, "C05": _SEQ + _LOC + " A dedicated workload makes every shift the first one of a brand-new thread.",
+ "C06": _MAG + _SEQ + _LOC, "C07": _SEQ + _LOC + " A dedicated workload makes every pair the first call of a brand-new thread.",
+ "C08": _MAG + _SEQ, "C09": _SEQ + _LOC + " Absolute check: the getter of the field set reads the value set; cleared fields read their minimum.",
+ "C10": _MAG + _SEQ + " as_offset is also applied to receivers that already carry an offset.",
+ "C11": _MAG + _SEQ + " Offset::Local values are formatted under a changing system zone (hooks). Literals incl. control characters, Unicode numerics and 256+-character runs.",
+ "C12": _MAG + _SEQ, "C13": _MAG + _SEQ + " format_rfc3339 of Offset::Local values under a changing system zone (hooks).",
+ "C14": _SEQ + " Pile-ups of fields for one component with maximal digits.", "C15": _SEQ + " Constructors are read back through as_ymdhms/as_hms; setters are also applied to results of earlier operations (API walks).",
+ "C16": _SEQ + " Edit alphabet incl. case-fold look-alikes (ſ ı K İ); boundary-shift parse sequences.", "C17": _SEQ + " Starts include years before year 1 and the 8-year leap-day gaps around century years.",
+ "C18": _SEQ + " Lookups of several zones interleaved on one thread; 32-bit time_t limits probed.", "C19": _SEQ + " Enumerated magnitude ladder for every numeric footer slot; bases with 254/255/256 types; accepted files looked up at their own transitions.",
+ "C20": _MAG + _SEQ + " One instant under changing offsets in sequence; Offset::Local under a changing system zone (hooks); relative claims judged on every constructible value.",
+}
+
 def main():
     props = [json.loads(l) for l in open(os.path.join(VERIF, "properties.jsonl"))]
     hook_commits = []
@@ -66,9 +85,9 @@ def main():
                 "evidence_file": "/verif/evidence/%s.json" % pid,
                 "replay_cmd_template": "./check --replay {path}",
                 "engine": "astromon",
-                "level_claimed": {"category": "fault_enumeration" if pid == "C19" else "exploration", "text": text, "design_ref": ref},
+                "level_claimed": {"category": "fault_enumeration" if pid == "C19" else "exploration", "text": text + EXTRA.get(pid, ""), "design_ref": ref + ", §10.11"},
                 "level_note": note,
-                "technique": "runtime monitoring: reference-model oracle + panic/overflow trap over generated and enumerated executions, two builds (overflow-checked and release)",
+                "technique": "runtime monitoring: reference-model oracle + panic/overflow trap (arithmetic sanitizer build and release build) over generated and enumerated executions; results observed differentially through every public read-out route against independently built values; call-sequence and fresh-thread histories for hidden state",
             })
         else:
             na.append({"property_id": pid, "reason": "monitor not built yet (work in progress; planned in DESIGN.md §5)"})
